@@ -141,10 +141,11 @@ pub fn entry_layer(ctx: &'static Ctx) {
 
 pub fn run(ctx: &'static Ctx) {
     entry_layer(ctx);
+    crate::props::standalone::placement(ctx);
     tseq::run(ctx, tseq::P::C04);
 }
 
-pub const RULE: &str = "entry layer: per structure and shape, base tuples + every single-field deviation over the field alphabet + field pairs over the extremes, each compared byte-for-byte with the reference encoder; table layer: every prefix of every explored operation sequence compared with the reference image. distinct = distinct images";
+pub const RULE: &str = "entry layer: per structure and shape (and the stand-alone structures: PCI-config GAS, typed GenericAddress, HEST error status block and data entry), base tuples + every single-field deviation over the field alphabet + field pairs over the extremes, each compared byte-for-byte with the reference encoder; table layer: every prefix of every explored operation sequence compared with the reference image. distinct = distinct images";
 pub const ASSUME: &[&str] = &[
     "walking-ones + zero + all-ones + distinct-byte patterns per field, not all 2^64 values",
     "specification facts as recorded in DESIGN.md 9.1; table revision bytes, FACS version, TCPA spec-revision bytes, RIMT and RQSC field order are pinned to the baseline",
